@@ -19,7 +19,7 @@ ASSUMPTIONS = ['text-only definitions have no deepest element: no >b pair for th
                'whether a definition has a single top-level node is decided on its text (operators outside brackets, braces and quotes)',
                'user tables reference only their own names, so the nesting bound is the number of user snippets',
                'termination decided on logical steps (20M line events)']
-FLOORS = {'quick': {'builtin-pair': 6000, 'multi-top-pair': 150, 'user-table': 4000, 'user-chain-pair': 1500, 'sibling-pair': 20000}, 'thorough': {'builtin-pair': 6000, 'multi-top-pair': 150, 'user-table': 180000, 'user-chain-pair': 100000, 'sibling-pair': 500000}}
+FLOORS = {'quick': {'parse-options-pair': 60, 'builtin-pair': 6000, 'multi-top-pair': 150, 'user-table': 4000, 'user-chain-pair': 1500, 'sibling-pair': 20000}, 'thorough': {'parse-options-pair': 60, 'builtin-pair': 6000, 'multi-top-pair': 150, 'user-table': 180000, 'user-chain-pair': 100000, 'sibling-pair': 500000}}
 REQUIRED_MONITORS = ['oracle:alias-equals-definition', 'oracle:multi-top', 'oracle:alias-repeater-governs', 'oracle:context-independent', 'termination:bounded', 'probe:resolve-depth']
 SYNTAXES = ['html', 'xsl', 'pug', 'jsx', 'xml', 'haml', 'slim']
 NTABLES = {'quick': 700, 'thorough': 12000}
@@ -338,6 +338,15 @@ def run_shard(desc, ctx):
                         ctx.violation('alias-repeater-not-applied', case, {'opens_with_fixed_words': flags, 'expected': want, 'output': r[1][:200]})
                     else:
                         ctx.seen(('alias-repeat-lorem', ab, syntax))
+            # parse-level settings of the call reach the definitions: the repeat limit (both spellings of the key) and JSX mode
+            ptbl = {'st': 'span.star*5', 'rw': 'x-c*4>x-d*2', 'cp': 'Foo.Bar', 'cq': 'Foo.Bar>Baz.q*3', 'lk': 'a[href]*3'}
+            for extra in ({'maxRepeat': 3}, {'max_repeat': 2}, {'syntax': 'jsx'}, {'syntax': 'jsx', 'maxRepeat': 2}, {'maxRepeat': 1}, {'syntax': 'vue', 'max_repeat': 4}):
+                for key, defn in sorted(ptbl.items()):
+                    cfg = dict({'syntax': 'html', 'snippets': ptbl}, **extra)
+                    mon.pair('parse-options', key, defn, cfg, 'parse-options-pair', 'oracle:alias-equals-definition')
+                    mon.pair('parse-options', 'x-p>' + key + '+x-q', 'x-p>(' + defn + ')+x-q', cfg, 'parse-options-pair', 'oracle:alias-equals-definition')
+                    mon.pair('parse-options', key + '.c', defn.replace('*', '.c*', 1) if '>' not in defn and '*' in defn else defn + '.c' if '>' not in defn else key + '.c', cfg,
+                             'parse-options-pair', 'oracle:alias-equals-definition')
             for syntax in SYNTAXES:
                 for a, d in MULTI_PAIRS:
                     mon.pair('multi-top', a, d, {'syntax': syntax, 'snippets': dict(MULTI)}, 'multi-top-pair', 'oracle:multi-top')
